@@ -186,6 +186,10 @@ static inline void pick_bound(rng_t *r, const model_t *m, bspec_t *bs)
 }
 static inline void bspec_free(bspec_t *b) { bs_free(&b->a); bs_free(&b->b); }
 
+/* optional fault hook for mergers: arm a one-off merge-function failure for a key (returns 0 if not supported) */
+static int (*g_arm_merge_failure)(const uint8_t *key, size_t lk);
+static int (*g_merge_failure_fired)(void);
+
 static inline void suite_history(const struct mtbl_source *src, const model_t *m, rng_t *r, int nops)
 {
 	enum { MAXI = 4 };
@@ -201,6 +205,29 @@ static inline void suite_history(const struct mtbl_source *src, const model_t *m
 		}
 		miter_t *mi = &it[i];
 		int what = rndn(r, 100);
+		if (g_arm_merge_failure && what < 6 && !mi->failed && mi->pos < m->n && inbound(&mi->bd, &m->e[mi->pos])) {
+			/* the merge function fails once for the key this next would produce (if it needs merging): the call must fail,
+			   stay failed until a seek, and a retry by seek to that key must produce the full fold */
+			const ent_t *e = &m->e[mi->pos];
+			if (g_arm_merge_failure(e->k.p, e->k.n)) {
+				const uint8_t *k, *v; size_t lk, lv;
+				miter_check_stable(mi, "history"); miter_forget(mi);
+				mtbl_res res = mtbl_iter_next(mi->it, &k, &lk, &v, &lv);
+				if (g_merge_failure_fired()) {
+					STAT("history.merge_failures_injected");
+					if (res == mtbl_res_success) viol(sigf("merge-failure-not-surfaced"), "the merge function failed for key %s but next returned key %s", hexs(e->k.p, e->k.n), hexs(k, lk));
+					if (mtbl_iter_next(mi->it, &k, &lk, &v, &lv) == mtbl_res_success) viol(sigf("next-succeeds-after-failure-without-seek"), "after a merge failure at key %s the following next returned key %s (%zu value bytes) without a seek", hexs(e->k.p, e->k.n), hexs(k, lk), lv);
+					mi->failed = true;
+					if (rndn(r, 2)) { miter_seek(mi, e->k.p, e->k.n, "retry-after-merge-failure"); miter_next(mi, "retry-after-merge-failure"); STAT("history.retry_seek_after_merge_failure"); }
+				} else {
+					/* the key did not need merging: an ordinary next happened; account for it */
+					g_arm_merge_failure(NULL, 0);
+					if (res == mtbl_res_success) { if (key_cmp(k, lk, e->k.p, e->k.n) != 0) viol(sigf("next-wrong-key"), "history: next returned %s, model expects %s", hexs(k, lk), hexs(e->k.p, e->k.n)); mi->last_idx = (long)mi->pos; mi->pos++; mi->lk = k; mi->llk = lk; mi->lv = v; mi->llv = lv; mi->ck = bs_dup(k, lk); mi->cv = bs_dup(v, lv); mi->have_last = true; }
+					else { viol(sigf("next-fails-but-entry-expected"), "history: next failed, model expects key %s", hexs(e->k.p, e->k.n)); mi->failed = true; }
+				}
+				continue;
+			}
+		}
 		if (what < 45) { miter_next(mi, "history"); }
 		else if (what < 92) {
 			/* choose a target >= range start */
